@@ -55,6 +55,10 @@ claimed = {
    text="Proof for the memory and filesystem backends that the code implements the keyed-map view: the storage key is exactly type byte + (session prefix for session-scoped types) + key (+ '_' + language code for translatable types with a language from the store or the context) (ToSessionKey, ToDbKey, ToKey and the fs/mem overrides, with frames that touch only spare capacity, so a lookup cannot alter the session prefix); Put is refused while the data type is locked and then changes nothing, otherwise writes exactly the record of the translation key if a language applies, else of the default key; Get returns the translation record if present, else the default record, else an error of type ErrNotFound; SetLock/CheckPut/Safe are proved at bit level for all 256 type masks, sealing is irreversible. The file system is a ghost map path -> (exists, content) behind assumed contracts for os.Open/ReadAll/WriteFile/path.Join.",
    note="Known finding H12 (the filesystem backend's legacy fallback name answers a never-written key with another record). Not covered: the Postgres backend's value semantics (its transaction handling is C13), Dump/listing on the filesystem backend, DbResource.mustSafe. Premises: key, value and session-prefix slices do not share a backing array; data type byte < 208. Trusted: hex/base64/path.Join injective (axioms), OS stubs, vcgo translation, solvers.",
    ref="4/C10"),
+ "C12": dict(
+   text="Proof over fsDb.Put and fsDb.writeFile that a save reaches the record of (type, session, key, language) only through one atomic rename of a temporary file that already holds the complete new value: call-site assertions show that every primitive that is not atomic (CreateTemp, File.Write, Remove) is applied to the temporary name only and that the renamed file's content equals the value; the frame shows that no other path changes (other sessions' records untouched); a failed Put leaves the record exactly as it was (all-or-nothing postcondition). Any in-place WriteFile on the record path fails a named call-site obligation (this is how the original defect was found).",
+   note="Genuine defect repaired (fix: 011f25a): Put used ioutil.WriteFile on the record itself. Crash model: process death between or inside system calls; rename(2) atomic; no power loss (no fsync obligation). With complete records a reload after a crash deserialises, so ensurePersist's fallback to Save on any Load error is not reached by a crash; that fallback for other error causes is outside the statement and not under contract. Trusted: OS stubs (CreateTemp name = function of pattern and a ghost counter, starts like the pattern; record names never start with '.'), vcgo translation, solvers.",
+   ref="4/C12"),
 }
 
 pending_reason = "pending: contracts for this property are not yet under vcgo (see DESIGN.md section 4)"
